@@ -828,7 +828,9 @@ func (app *App) approveSwitchover(switchover *Switchover, activeNodes []string, 
 		return fmt.Errorf("switchover failed %d times, giving up after reaching switchover_max_attempts (%d)",
 			switchover.RunCount, app.config.SwitchoverMaxAttempts)
 	}
-	if switchover.RunCount > 0 {
+	// already approved once: a retry, or an attempt a previous manager started and did not live to finish
+	// (the procedure is resumed from whatever intermediate topology it left)
+	if switchover.RunCount > 0 || !switchover.StartedAt.IsZero() {
 		return nil
 	}
 	permissibleSlaves := countAliveHASlavesWithinNodes(activeNodes, clusterState)
